@@ -9,6 +9,11 @@ CHECKS = {
     technique="TLA+ refinement (ring bitmap vs. set spec) checked exhaustively by TLC; trace validation of real SlidingWindow histories; TLC-simulated behaviours replayed into the real filter",
     text="TLC proves, for every reachable state of three small ring geometries, that the ring bitmap transcribed from replay.go gives the same verdict as the property's set definition for every counter. The real type is bound in both directions: seeded long histories recorded from transport.SlidingWindow are validated by TLC against the set spec with the real window (448), and TLC-simulated behaviours of the 8x2 model are scaled to the real 8x64 layout and replayed with the spec's verdict vector as oracle after every step.",
     note="Trusted: TLC, the monotone scaling argument (8 blocks kept, in-block offsets mapped monotonically), the Go harness. Counters < 2^63. The bounded exhaustive run covers counters 0..36; longer histories are covered by recorded traces, not by proof."),
+ "C20": dict(
+    level="model_checking", ref="§3 C20",
+    technique="TLA+ definition of glob matching (declarative = recursive, checked by TLC on all small pairs); exhaustive small-scope calls of the real matcher and of host-block / virtual-host selection validated as a trace against the spec",
+    text="The property text is written twice in HopGlob.tla (declarative: replace each star by a string; recursive oracle) and TLC checks they agree on all pairs up to length 4/4. The real glob.Glob is then called on every pattern over {a,b,*} up to length 4 (thorough 5) against every input over {a,b} up to length 5 (6), on seeded longer pairs, and ClientConfig.MatchHost / VirtualHosts.Match on block lists built from a pattern pool; panics are caught and logged as results; TLC judges every recorded result against the spec (both directions of the iff).",
+    note="Trusted: TLC, the Go driver's logging. Exhaustive only within the stated lengths and alphabet; longer inputs are sampled. Case-insensitive matching is not part of the code (option commented out) and not modelled."),
 }
 
 NOT_YET = {}
